@@ -271,7 +271,10 @@ def aniso_input(Ckm, size, notation, as_int=False):
     """What the user passes to Anisotropic for the material Ckm in the given notation."""
     d = 3 if size == "6x6" else 2
     if notation == "mandel":
-        return np.array(Ckm, dtype=float)
+        out = np.array(Ckm, dtype=float)
+        if as_int and np.allclose(out, np.rint(out), rtol=0, atol=1e-9):
+            out = np.rint(out).astype(int)  # whole-number moduli typed without a decimal point (as the library's own tests write them)
+        return out
     out = np.zeros_like(Ckm)
     for idx in np.ndindex(*Ckm.shape[:-2]):
         out[idx] = tensor_to_voigt_stiffness(km_to_tensor(Ckm[idx], d), d)
@@ -577,7 +580,7 @@ def _case_material(case):
         Q = q_from_axes(a1, a2)
         if size == "3x3":
             Q = Q[:2, :2]
-        Cin = aniso_input(Cmat, size, case["notation"], as_int and case["notation"] == "voigt")
+        Cin = aniso_input(Cmat, size, case["notation"], as_int)
         return dict(params=None, Cin=Cin, shape=shape, Cmat=Cmat, a1=a1, a2=a2, Q=Q)
     params = eng_params(law, pset)
     Cmat = ref_material_km(law, params, shape)
